@@ -169,6 +169,15 @@ CHECKS["C17"] = dict(
     design="DESIGN.md §3 C17",
 )
 
+CHECKS["C07"] = dict(
+    level="exploration",
+    engine="direct",
+    technique="property-based testing (Hypothesis) with probes constructed at the extremes of each footprint / box / chunk (RefToast point location), direct oracle = any reference pixel centre inside => filter accepts tile and all ancestors, tile unchanged; differential filtered vs exhaustive sampling; chunk-by-chunk vs whole-map sampling against RefPlateCarree",
+    text="Box filters (any longitude origin, widths beyond 2*pi, poles, seam), image-footprint filters (1-120 px, five projections, any rotation/parity/position incl. RA 0) probed at their latitude/longitude extremes with sub-pixel inward shifts over a 1/1024..4 range of resolutions, and chunk filters of generated chunk grids; plus end-to-end comparisons. Held on everything explored after two fixes this check motivated.",
+    note="A pixel centre counts as holding image data when >= 0.05 px inside the footprint (second-order residual of per-pixel bound refinement); images whose pixel grid leaves the projection's domain are skipped.",
+    design="DESIGN.md §3 C07",
+)
+
 NOT_APPLICABLE = {}
 
 
